@@ -9,6 +9,7 @@
 -/
 import PyIkev2.Proofs.Machine
 import PyIkev2.Gen.Machine
+import PyIkev2.Proofs.HandlersCollide
 
 namespace PyIkev2.Props.C09
 open PyIkev2 PyIkev2.Impl
@@ -96,5 +97,45 @@ theorem c09_escape_only_from_generator (H : Handlers τ) (t : τ) (s : Sa) (now 
 /-- the datagram entry point never lets an exception out (whatever the handlers raise): see C17 -/
 theorem c09_process_message_total (H : Handlers τ) (t : τ) (s : Sa) (now : Nat) :
     (processMessage H t s now none).2.escaped = false := rfl
+
+/-! ### what the real handlers answer when exchanges cross (RFC 7296 section 2.25), in the model of Model/Handlers.lean
+
+  Exact results — the reply payloads, and that the IKE_SA object, its successor, the kernel and the oracle tape are untouched —
+  for every request of the shape concerned, in every state concerned. -/
+
+/-- an IKE_SA rekey request while this end is not plainly ESTABLISHED (its own request outstanding: new CHILD_SA, CHILD_SA rekey,
+    IKE_SA rekey, delete, DPD; or already rekeyed): TEMPORARY_FAILURE and nothing else -/
+theorem c09_concrete_ike_rekey_while_busy (now : Nat) (request : Msg) (p0 : Proposal) (s : HSt) (h : s.me.core.st ≠ stESTABLISHED) :
+    ikeRekeyRequest now request p0 s = (.ok [mkNotify 0 nTEMPORARY_FAILURE [] []], s) :=
+  ikeRekeyRequest_busy now request p0 s h
+
+/-- a CHILD_SA request (new or rekey) while this end is rekeying or deleting the IKE_SA: TEMPORARY_FAILURE and nothing else -/
+theorem c09_concrete_child_request_while_ike_sa_in_transition (request : Msg) (s : HSt) (sa : List Proposal) (tsi tsr : List TS)
+    (h1 : paySA request true = .ok sa) (h2 : payTS request ptTSi true = .ok tsi) (h3 : payTS request ptTSr true = .ok tsr)
+    (hst : s.me.core.st = stREK_IKE_SA_REQ_SENT ∨ s.me.core.st = stDEL_IKE_SA_REQ_SENT) :
+    childNegotiationReq request s = (.ok [mkNotify 0 nTEMPORARY_FAILURE [] []], s) :=
+  childNegotiationReq_ike_busy request s sa tsi tsr h1 h2 h3 hst
+
+/-- a rekey request for a CHILD_SA this end does not (or no longer) have: CHILD_SA_NOT_FOUND naming that protocol and SPI -/
+theorem c09_concrete_rekey_of_unknown_child (request : Msg) (s : HSt) (sa : List Proposal) (tsi tsr : List TS) (proto : Nat) (spi d : Bytes)
+    (tl : List (Nat × Bytes × Bytes))
+    (h1 : paySA request true = .ok sa) (h2 : payTS request ptTSi true = .ok tsi) (h3 : payTS request ptTSr true = .ok tsr)
+    (hst : ¬ (s.me.core.st = stREK_IKE_SA_REQ_SENT ∨ s.me.core.st = stDEL_IKE_SA_REQ_SENT))
+    (hn : getNotifies request nREKEY_SA true = (proto, spi, d) :: tl) (hk : getKid s.me.ext.kids spi = none) :
+    childNegotiationReq request s = (.ok [mkNotify proto nCHILD_SA_NOT_FOUND spi []], s) :=
+  childNegotiationReq_of_prelude_error request s sa tsi tsr _ h1 h2 h3 hst
+    (childRekeyPrelude_unknown request sa tsi tsr s proto spi d tl hn hk) ⟨proto, nCHILD_SA_NOT_FOUND, spi, [], rfl, Or.inl rfl⟩
+
+/-- a rekey request for the very CHILD_SA this end is deleting, or is rekeying itself: TEMPORARY_FAILURE and nothing else -/
+theorem c09_concrete_rekey_crossing_own_delete_or_rekey (request : Msg) (s : HSt) (sa : List Proposal) (tsi tsr : List TS) (proto : Nat)
+    (spi d : Bytes) (tl : List (Nat × Bytes × Bytes)) (old : Child)
+    (h1 : paySA request true = .ok sa) (h2 : payTS request ptTSi true = .ok tsi) (h3 : payTS request ptTSr true = .ok tsr)
+    (hst : ¬ (s.me.core.st = stREK_IKE_SA_REQ_SENT ∨ s.me.core.st = stDEL_IKE_SA_REQ_SENT))
+    (hn : getNotifies request nREKEY_SA true = (proto, spi, d) :: tl) (hk : getKid s.me.ext.kids spi = some old)
+    (hb : (s.me.core.st = stDEL_CHILD_REQ_SENT ∧ s.me.ext.deleting.map (childEq old) = some true) ∨
+          (s.me.core.st = stREK_CHILD_REQ_SENT ∧ s.me.ext.rekeying.map (childEq old) = some true)) :
+    childNegotiationReq request s = (.ok [mkNotify 0 nTEMPORARY_FAILURE [] []], s) :=
+  childNegotiationReq_of_prelude_error request s sa tsi tsr _ h1 h2 h3 hst
+    (childRekeyPrelude_busy request sa tsi tsr s proto spi d tl old hn hk hb) ⟨0, nTEMPORARY_FAILURE, [], [], rfl, Or.inr rfl⟩
 
 end PyIkev2.Props.C09
